@@ -307,36 +307,35 @@ abbrev TextRes := Res (Option Nat × Nat)
 def noConversion (s : List Nat) : TextRes :=
   if s.all isSpace then .ok (none, 0) else .err .BadType
 
+/-- the `switch (vlen)` of `_mpt_convert_int/_uint`: supported widths and their limits -/
+def widthOK (vlen : Nat) : Bool := vlen = 1 || vlen = 2 || vlen = 4 || vlen = 8
+def sLo (vlen : Nat) : Int :=
+  if vlen = 1 then -128 else if vlen = 2 then -32768 else if vlen = 4 then -2147483648 else -9223372036854775808
+def sHi (vlen : Nat) : Int :=
+  if vlen = 1 then 127 else if vlen = 2 then 32767 else if vlen = 4 then 2147483647 else 9223372036854775807
+def uHi (vlen : Nat) : Int :=
+  if vlen = 1 then 255 else if vlen = 2 then 65535 else if vlen = 4 then 4294967295 else 18446744073709551615
+def wMod (vlen : Nat) : Int :=
+  if vlen = 1 then 256 else if vlen = 2 then 65536 else if vlen = 4 then 4294967296 else 18446744073709551616
+
 /-- `_mpt_convert_int(val, vlen, src, base)` -/
 def convertInt (vlen : Nat) (s : List Nat) (base : Nat) (dest : Bool) : TextRes :=
-  if s = [] then .ok (none, 0) else
-  let r := strtoimax s base
-  if r.consumed = 0 then noConversion s
-  else if r.erange then .err .BadValue
-  else
-    let (lo, hi, m) : Int × Int × Int :=
-      if vlen = 1 then (-128, 127, 256) else if vlen = 2 then (-32768, 32767, 65536)
-      else if vlen = 4 then (-2147483648, 2147483647, 4294967296)
-      else (-9223372036854775808, 9223372036854775807, 18446744073709551616)
-    if vlen ≠ 1 ∧ vlen ≠ 2 ∧ vlen ≠ 4 ∧ vlen ≠ 8 then .err .BadType
-    else if r.value < lo ∨ r.value > hi then .err .BadValue
-    else .ok (if dest then some (r.value % m).toNat else none, r.consumed)
+  if s = [] then .ok (none, 0)
+  else if (strtoimax s base).consumed = 0 then noConversion s
+  else if (strtoimax s base).erange then .err .BadValue
+  else if !widthOK vlen then .err .BadType
+  else if (strtoimax s base).value < sLo vlen ∨ (strtoimax s base).value > sHi vlen then .err .BadValue
+  else .ok (if dest then some ((strtoimax s base).value % wMod vlen).toNat else none, (strtoimax s base).consumed)
 
 /-- `_mpt_convert_uint(val, vlen, src, base)` -/
 def convertUint (vlen : Nat) (s : List Nat) (base : Nat) (dest : Bool) : TextRes :=
-  if s = [] then .ok (none, 0) else
-  let r := strtoumax s base
-  if r.consumed = 0 then noConversion s
-  else if r.erange then .err .BadValue
+  if s = [] then .ok (none, 0)
+  else if (strtoumax s base).consumed = 0 then noConversion s
+  else if (strtoumax s base).erange then .err .BadValue
   else if (scanNumber s base).1 then .err .BadValue         -- explicit minus sign
-  else
-    let (hi, m) : Int × Int :=
-      if vlen = 1 then (255, 256) else if vlen = 2 then (65535, 65536)
-      else if vlen = 4 then (4294967295, 4294967296)
-      else (18446744073709551615, 18446744073709551616)
-    if vlen ≠ 1 ∧ vlen ≠ 2 ∧ vlen ≠ 4 ∧ vlen ≠ 8 then .err .BadType
-    else if r.value > hi then .err .BadValue
-    else .ok (if dest then some (r.value % m).toNat else none, r.consumed)
+  else if !widthOK vlen then .err .BadType
+  else if (strtoumax s base).value > uHi vlen then .err .BadValue
+  else .ok (if dest then some ((strtoumax s base).value % wMod vlen).toNat else none, (strtoumax s base).consumed)
 
 /-- `mpt_convert_number(src, fmt, dest)` for the integer target codes ('c' and the floating codes are
     not modelled: `.null`) -/
@@ -355,9 +354,10 @@ def convertNumber (tgt : Ty) (s : List Nat) (dest : Bool) : TextRes :=
 /-- `mpt_convert_string(from, type, dest)` for the integer target codes -/
 def convertString (tgt : Ty) (s : List Nat) (dest : Bool) : TextRes :=
   if s = [] then .ok (none, 0) else
-  let ws := (s.takeWhile isSpace).length
-  match convertNumber tgt (s.drop ws) dest with
-  | .ok (o, n) => .ok (o, ws + n)       -- also for n = 0: blank text is consumed, no value is stored
+  match convertNumber tgt (s.dropWhile isSpace) dest with
+  | .ok (o, n) =>
+    -- blank text: nothing consumed, nothing stored
+    if n = 0 then .ok (none, 0) else .ok (o, (s.takeWhile isSpace).length + n)
   | r => r
 
 end Mpt.Conv
